@@ -7,6 +7,7 @@ pub fn gen_case(profile: &str, rng: &mut Rng, out: &mut String) -> bool {
         "C04" => super::c04::gen_case(rng, out),
         "C07" => super::c01::gen_case(rng, out, true),
         "C09" => super::c09::gen_case(rng, out),
+        "C15" => super::c15::gen_case(rng, out),
         _ => return false,
     }
     true
